@@ -57,6 +57,15 @@ def gen_case(rng, odd):
             for k, g in enumerate(group):
                 if nodes[g]["cls"] in ("Node", "Two") and group[k + 1:] and rng.random() < 0.7:
                     nodes[g]["fields"].append(["c", dict(t="ref", n=rng.choice(group[k + 1:]))])
+        # only what the producer reaches is sealed by its submission
+        reach, todo = set(), ([group[0]] if group else [])
+        while todo:
+            g = todo.pop()
+            if g not in reach:
+                reach.add(g)
+                todo.extend(x["n"] for _, fv in nodes[g]["fields"] for x in values_in(fv) if x["t"] == "ref")
+        for g in group:
+            nodes[g]["sealed"] = g in reach
         v = rng.randrange(100)
         nodes[p]["fields"] = [["v", dict(t="int", v=v)], ["c", cval]]
         o = new("Out")
@@ -340,6 +349,10 @@ def run(c: Check):
         saved = list(c.obligations)
         bad_prefix = c.corr_shards("diag", HEADER, sub, g_case, "check_case_prefix", shard=250)
         c.obligations = saved
+        c.extra["disagreeing_total"] = len(bad)
+        c.extra["disagreeing_with_nonplain_keys"] = sum(
+            1 for i in bad if not all(is_plain(k) for k in case_keys(good[i])))
+        c.extra["disagreeing_checked_against_prefix_model"] = len(sub)
         c.extra["disagreeing_cases_match_prefix_model"] = len(sub) - len(bad_prefix)
     c.extra["disagreeing_cases"] = [dict(nodes=good[i]["nodes"], producers=good[i]["producers"],
                                          values=good[i]["ans"]["values"]) for i in bad[:3]]
